@@ -168,6 +168,7 @@ class DevConn:
         self.closed = False
         self.rx_packets = 0
         self._fifo_t = -1.0
+        self._fifo_batch = None
 
     @property
     def loop(self):
@@ -208,22 +209,45 @@ class DevConn:
         for delay, what in actions:
             groups.setdefault(float(delay), []).append(what)
         now = self.now()
+        last_when = now
         for delay in sorted(groups):
             items = groups[delay]
+            last_when = max(last_when, now + max(delay, 0.0), self._fifo_t if self.dev.fifo else 0.0)
             if self.dev.fifo:
                 # TCP never reorders: a later emission may not overtake an earlier, delayed one
                 when = now + max(delay, 0.0)
+                if when <= self._fifo_t and self._fifo_batch is not None and self.dev.coalesce:
+                    # bytes queued behind delayed bytes arrive together with them (one segment)
+                    self._fifo_batch.extend(items)
+                    continue
                 if when <= self._fifo_t:
                     when = self._fifo_t + 1e-7
                 self._fifo_t = when
+                self._fifo_batch = list(items)
                 if when <= now:
-                    self.loop.call_soon(self._run_items, items)
+                    self.loop.call_soon(self._run_batch, self._fifo_batch)
                 else:
-                    self.loop.call_at(when, self._run_items, items)
+                    self.loop.call_at(when, self._run_batch, self._fifo_batch)
             elif delay <= 0:
                 self.loop.call_soon(self._run_items, items)
             else:
                 self.loop.call_later(delay, self._run_items, items)
+        return last_when
+
+    def _run_batch(self, batch) -> None:
+        if self._fifo_batch is batch:
+            self._fifo_batch = None
+        items = list(batch)
+        if self.dev.coalesce:
+            merged = []
+            for it in items:
+                if isinstance(it, (bytes, bytearray)) and merged and isinstance(merged[-1], (bytes, bytearray)):
+                    merged[-1] = bytes(merged[-1]) + bytes(it)
+                    self.dev.events.append((self.now(), "coalesced", self.id, len(merged[-1])))
+                else:
+                    merged.append(it)
+            items = merged
+        self._run_items(items)
 
     def _run_items(self, items) -> None:
         for what in items:
@@ -258,6 +282,9 @@ class SimDevice:
         self.connect_script = []    # per-attempt: 'accept' | 'refuse' | 'hang'
         self.connect_default = "accept"
         self.fifo = False           # True: per-connection FIFO delivery even with unequal delays (network latency model)
+        self.coalesce = False       # with fifo: bytes that catch up with delayed bytes are delivered in the same segment
+        self.push_reports = False   # True: every state change is pushed as an unsolicited report to the other open connections
+        self.push_latency = None    # callable() -> seconds, latency of pushed reports
         # hooks (all optional)
         self.on_exchange: Optional[Callable] = None   # (conn, req_frame, resp_packets:list[bytes]) -> actions | None
         self.on_handshake: Optional[Callable] = None  # (conn, token_ok, default_reply:bytes, info) -> actions | None
@@ -267,6 +294,8 @@ class SimDevice:
         self.silent_on_bad_token = False
         self.frames_seen = []       # (t, conn_id, frame) every application frame unwrapped
         self.version_log = []       # (t, version, state copy) whenever a command changed the appliance state
+        self.pushes = []            # unsolicited reports pushed on state changes (render / delivery instants)
+        self.deliveries = []        # solicited responses: render / (last) delivery instants per exchange
         self.handshakes = []        # (t, conn_id, token, accepted, counter)
         self.data_packets = []      # (t, conn_id, counter, key_gen, ok, frame)
         self.preauth_junk = []      # packets other than handshake before auth on that conn
@@ -307,13 +336,24 @@ class SimDevice:
         resp_frames = self.ac.handle(frame)
         if self.ac.version != v0:
             self.version_log.append((conn.now(), self.ac.version, dict(self.ac.state)))
+            if self.push_reports:
+                for other in self.conns:
+                    if other is conn or other.closed or other.wedged:
+                        continue
+                    if self.version == 3 and other.skey is None:
+                        continue
+                    lat = self.push_latency() if self.push_latency else 0.0
+                    t_deliver = other.emit([(lat, self.wrap(other, self.ac.state_frame(acframe.FT_NOTIFY)))])
+                    self.pushes.append({"t_render": conn.now(), "t_deliver": t_deliver, "conn": other.id, "state": dict(self.ac.state)})
         packets = [self.wrap(conn, f) for f in resp_frames]
         actions = None
         if self.on_exchange is not None:
             actions = self.on_exchange(conn, frame, packets, meta)
         if actions is None:
             actions = [(0, p) for p in packets]
-        conn.emit(actions)
+        t_deliver = conn.emit(actions)
+        if actions:
+            self.deliveries.append({"t_render": conn.now(), "t_deliver": t_deliver, "conn": conn.id, "state": dict(self.ac.state)})
 
     # ---- V2 ----
     def on_v2_packet(self, conn, pkt: bytes) -> None:
@@ -384,7 +424,7 @@ class SimHost:
     (delay, source_port, bytes) sent for the FIRST acceptable probe only (``answer_every`` = True: for every probe).
     """
 
-    def __init__(self, net, ip: str, port: int = 6445, replies=None, answer_every: bool = False) -> None:
+    def __init__(self, net, ip: str, port: int = 6445, replies=None, answer_every: bool = False, names=()) -> None:
         from .ref import discovery
         self._disc = discovery
         self.net = net
@@ -392,6 +432,7 @@ class SimHost:
         self.port = port
         self.replies = list(replies or [])
         self.answer_every = answer_every
+        self.names = set(names)      # host names that resolve to this host
         self.probes_ok = 0
         self.probes_rejected = []
         self.answered = False
@@ -408,7 +449,7 @@ class SimHost:
             if (socket.SOL_SOCKET, socket.SO_BROADCAST, 1) not in transport.sock.options:
                 self.probes_rejected.append("broadcast without SO_BROADCAST")
                 return
-        elif ip != self.ip:
+        elif ip != self.ip and ip not in self.names:
             return
         ok, why = self._disc.probe_acceptable(data)
         if not ok:
